@@ -230,12 +230,11 @@ Definition mstep (f : fmt) (reg : list ppl) (bk outf : ppl) (rules : list rule) 
   | OpConvert b u => obind (mc_user m u) (fun up =>
                      obind (mc_set_last m b (init (mc_heap m) f bk up outf)) (fun m' => mc_run f rules m' b))
   end.
-(* premise of the behaviour theorem at a conversion without re-initialisation: the pipeline still
-   owns all its objects (always true right after init_processing_pipeline) *)
+(* premise of the behaviour theorem at every conversion without re-initialisation so far: the
+   pipeline still owned all its objects (always true right after init_processing_pipeline) *)
 Definition run_dom (m : mach) (o : op) (prev : bool) : bool :=
   match o with
-  | OpRun b => match mc_last m b with Some p => ownedb (mc_heap m) p | None => true end
-  | OpConvert _ _ => true
+  | OpRun b => prev && match mc_last m b with Some p => ownedb (mc_heap m) p | None => true end
   | _ => prev
   end.
 Definition mstep_acc (f : fmt) (reg : list ppl) (bk outf : ppl) (rules : list rule)
@@ -253,8 +252,8 @@ Fixpoint mk_defs (h : heap) (ds : list pdef) : heap * outcome (list ppl) :=
   | [] => (h, Ok [])
   | d :: ds' => hbind (mk_def h d) (fun h1 p => hbind (mk_defs h1 ds') (fun h2 l => (h2, Ok (p :: l))))
   end.
-(* result of the last conversion of the history, and whether that conversion was inside the domain
-   of the behaviour theorem *)
+(* result of the last conversion of the history, and whether every conversion so far was inside the
+   domain of the behaviour theorem *)
 Definition mexec (f : fmt) (defs : list pdef) (bkd outd : pdef) (rules : list rule) (prog : list op)
   : outcome result * bool :=
   let hl := mk_defs h_empty (defs ++ [bkd; outd]) in
